@@ -88,6 +88,7 @@ REQUIRED_FEATURES = [
     "response:json-falsy:with-processors", "response:json-falsy:raw:with-processors",
     "response:non-json:raw:with-processors", "response:non-json:undefined-not-judged",
     "response:empty-body:2-processors",
+    "arg:params-pairs-list", "arg:params-pairs-tuple", "arg:params-repeated-name", "arg:params-empty",
     "auth:basic:b64-sextet-62", "auth:basic:b64-sextet-63", "auth:basic:non-ascii",
     "auth:client:b64-sextet-62", "auth:client:b64-sextet-63", "auth:client:non-ascii",
     "auth:clone-adapter:b64-sextet-62+63",
@@ -121,7 +122,9 @@ AUTH_LAYER = {"basic": BASIC, "token": TOKEN, "client": CLIENT}
 
 VERBS = ["get", "post", "put", "delete", "patch"]
 PATHS = ["/r/s", "r/s", ""]
-PARAMS = [None, {"a": "1", "b c": "x&y=é"}]
+PAIRS = [["tag", "red"], ["tag", "blue"], ["limit", 5], ["b c", "x&y=é"]]     # a repeated name: needs pairs
+# None | mapping | list of pairs (realised as a list of tuples) | {"pairs-tuple": ...} (tuple of tuples) | empty
+PARAMS = [None, {"a": "1", "b c": "x&y=é"}, PAIRS, {"pairs-tuple": PAIRS}, {}, []]
 DATAS = [["none"], ["str", "text-é"], ["bytes", "00ff7261"], ["json", {"k": [1, "é"]}],
          ["json", []], ["str", ""]]
 HEADERS = [None, {"X-Custom": "v"},
@@ -146,6 +149,7 @@ PROBE = [
     shape("delete", "r/s", headers=HEADERS[1]),
     shape("patch", "/r/s", data=DATAS[3], raw=True),
     shape("get", "/r/s", resp=""),
+    shape("get", "r/s", params=PAIRS, headers=HEADERS[1]),
 ]
 RESP_SHAPES = [shape("get", "/r/s", raw=raw, resp=body) for body in RESP_BODIES for raw in (False, True)]
 CALLER_PROBE = [PROBE[4], PROBE[6]]
@@ -458,6 +462,10 @@ class World:
             tag = value[0]
             obj = None if tag == "none" else value[1] if tag == "str" else \
                 bytes.fromhex(value[1]) if tag == "bytes" else copy.deepcopy(value[1])
+        elif what == "params" and isinstance(value, list):
+            obj = [tuple(p) for p in value]                     # caller-owned list of (name, value) pairs
+        elif what == "params" and isinstance(value, dict) and "pairs-tuple" in value:
+            obj = tuple(tuple(p) for p in value["pairs-tuple"])
         else:
             obj = copy.deepcopy(value)
         self.objs[key] = obj
@@ -574,8 +582,16 @@ def _shape_features(shp):
     k = _SHAPE_FEATS.get(id(shp))
     if k is None or k[0] is not shp:
         f = {"verb:" + shp["verb"], "body:" + shp["data"][0]}
-        if shp["params"] is not None:
+        pr = shp["params"]
+        if pr is not None:
             f.add("arg:params")
+            pairs = pr if isinstance(pr, list) else pr.get("pairs-tuple") if isinstance(pr, dict) else None
+            if not pr:
+                f.add("arg:params-empty")
+            elif pairs is not None:
+                f.add("arg:params-pairs-list" if isinstance(pr, list) else "arg:params-pairs-tuple")
+                if len({p[0] for p in pairs}) < len(pairs):
+                    f.add("arg:params-repeated-name")
         if shp["data"][0] != "none" and not shp["data"][1]:
             f.add("body:falsy")
         if shp["headers"] is not None:
@@ -755,6 +771,9 @@ def patterns(nd, nr):
     return sorted({"".join(p) for p in itertools.permutations("D" * nd + "R" * nr)})
 
 
+H0_PARTS = 3     # the (family, node, entry point) histories of one H0 first-choice are dealt out over 3 shards
+
+
 def shards(tier):
     t = TIERS[tier]
     out = []
@@ -764,10 +783,11 @@ def shards(tier):
             for r in range(m):
                 out.append(("H1", root, depth, i, (r, m), probe))
     for root, dmax in t["H0"].items():
-        out.append(("H0", root, 0, None))
+        out.append(("H0", root, 0, None, (0, 1)))
         for depth in range(1, dmax + 1):
             for i in range(n_first_choices(root, last=(depth == 1))):
-                out.append(("H0", root, depth, i))
+                for r in range(H0_PARTS):
+                    out.append(("H0", root, depth, i, (r, H0_PARTS)))
     for root, dmax in t["H3"].items():
         out.append(("H3", root, 0, None))
         for depth in range(1, dmax + 1):
@@ -959,7 +979,8 @@ def run_shard(shard, tier, seed, acc):
                 if k % 64 == 0 and acc.expired():
                     return
         elif kind == "H0":
-            _, _, depth, first = shard
+            _, _, depth, first, (part, nparts) = shard
+            idx = -1
             for ops in derivation_sequences(rootname, depth, first):
                 if any(len(o) > 3 and o[3] == "tuple" for o in ops):
                     continue
@@ -969,6 +990,9 @@ def run_shard(shard, tier, seed, acc):
                 for node, n in enumerate(fam.nodes):
                     entries = ["conn"] if n["kind"] == "conn" else list(ENTRY_COMPONENT)
                     for entry in entries:
+                        idx += 1
+                        if idx % nparts != part:
+                            continue
                         reqs = [["req", node, entry, s] for s in full_shapes()]
                         w, findings, executed = run_ops(rootname, ops + reqs)
                         _account(acc, w, findings, len(executed))
